@@ -88,8 +88,16 @@ fn run(src: &Path, out: &Path) -> Result<(), String> {
         json.push_str(
             &sites
                 .iter()
-                .map(|x| format!("  {{\"file\": {}, \"fn\": {}, \"line\": {}, \"field\": {}, \"method\": {}, \"ords\": {}}}",
-                    json_str(&x.file), json_str(&x.func), x.line, json_str(&x.field), json_str(&x.method), json_str(&x.ords.join(","))))
+                .map(|x| format!("  {{\"file\": {}, \"fn\": {}, \"line\": {}, \"field\": {}, \"method\": {}, \"ords\": {}, \"mline\": {}}}",
+                    json_str(&x.file), json_str(&x.func), x.line, json_str(&x.field), json_str(&x.method), json_str(&x.ords.join(",")), x.mline))
+                .collect::<Vec<_>>()
+                .join(",\n"),
+        );
+        json.push_str("\n],\n");
+        json.push_str("\"bin_calls\": [\n");
+        json.push_str(
+            &fns.iter()
+                .flat_map(|f| f.tc_calls.iter().map(move |(m, l)| format!("  {{\"file\": {}, \"fn\": {}, \"accessor\": {}, \"mline\": {}}}", json_str(&f.file), json_str(&f.name), json_str(m), l)))
                 .collect::<Vec<_>>()
                 .join(",\n"),
         );
